@@ -265,6 +265,62 @@ def h_threshold(k_half_open, k_established, history='none', same_spi=False):
     return ['threshold', 'open']
 
 
+def h_spread(k1, k2):
+    """the responder serves TWO configured connections (peers 192.168.0.1 and 192.168.0.3); k1 half-open IKE_SAs come from the first, k2 from the
+    second; then one more request without a cookie from the first peer, with an arbitrary threshold: the half-open IKE_SAs that count are ALL of
+    them (the statement: "the number of half-open IKE_SAs"), whichever connection they belong to"""
+    import copy
+    from ipaddress import ip_address
+    from symx import core
+    eng = core.engine()
+    m, ik, cf, ic = MODS['message'], MODS['ikesa'], MODS['configuration'], MODS['ikesacontroller']
+    S = ik.IkeSa.State
+    IP3 = ip_address('192.168.0.3')
+    c = world.Ctl()
+    d = c.confdict
+    d['carol'] = copy.deepcopy(d['alice'])
+    d['carol'].update(my_addr=str(IP3))
+    d['bob_carol'] = copy.deepcopy(d['bob'])
+    d['bob_carol'].update(peer_addr=str(IP3))
+    c.configuration = cf.Configuration([world.IP1, world.IP2, IP3], d)
+    with c.E:
+        c.ctl = ic.IkeSaController(my_addrs=[world.IP2], configuration=c.configuration)
+    c.E.obj = c.ctl
+    c.ctl.cookie_threshold = 10 ** 6
+    tsi, tsr = c.acquire_tss()
+
+    def first_request(src):
+        a = ik.IkeSa(is_initiator=True, peer_spi=b'\0' * 8, configuration=c.configuration.get_ike_configuration(src, world.IP2), my_addr=src, peer_addr=world.IP2)
+        ep = world.Endpoint(f'I{len(c.initiators)}', a)
+        c.initiators.append(ep)
+        return ep.call(a.process_acquire, tsi, tsr, 1)
+    for src, k in ((world.IP1, k1), (IP3, k2)):
+        for i in range(k):
+            if c.dispatch(first_request(src), peer_addr=src) is None:
+                return {'class': ['spread'], 'violation': 'an IKE_SA_INIT request below the threshold got no answer'}
+    thr = eng.sym_int('threshold', 0, 64)
+    c.ctl.cookie_threshold = thr
+    table0 = list(c.ctl.ike_sas)
+    half0 = sum(1 for e in table0 if e.state < S.ESTABLISHED)
+    assert half0 == k1 + k2
+    m1 = first_request(world.IP1)
+    dh_calls, real_dh = spy_dh()
+    try:
+        reply = c.dispatch(m1, peer_addr=world.IP1)
+    finally:
+        ik.DiffieHellman = real_dh
+    rep = m.Message.parse(reply)
+    table1 = list(c.ctl.ike_sas)
+    if rep.get_notifies(m.PayloadNOTIFY.Type.COOKIE):
+        eng.prove(half0 + 1 > thr, 'a cookie was demanded although the number of half-open IKE_SAs does not exceed the threshold')
+        if len(rep.payloads) != 1 or dh_calls or len(table1) != len(table0):
+            return {'class': ['spread', 'armed'], 'violation': 'the COOKIE reply carries other payloads, cost a DH computation or left an IKE_SA behind'}
+        return ['spread', 'armed']
+    eng.prove(core.sym_not(half0 > thr), f'no cookie was demanded although the half-open IKE_SAs ({k1} of one connection + {k2} of another) exceed the threshold: '
+                                         f'a full reply, a DH computation and an IKE_SA for a request without cookie')
+    return ['spread', 'open']
+
+
 def h_initiator(cookie_len, second=None):
     """second: a further COOKIE response arrives after the retry was sent - 'same' = a duplicate (the responder answered a retransmission of the
     cookie-less request as well), 'other' = another cookie (the responder changed its secret): the initiator's request is again the original
@@ -367,6 +423,9 @@ def build_instances(tier):
         for k in ((1, 2) if tier == 'quick' else (0, 1, 2, 5)):
             inst.append(Instance(f'threshold half_open={k} history={hist}', h_threshold, (k, 0, hist), native=nat(h_threshold),
                                  must_reach=[('armed', lambda o: o == ['threshold', 'armed']), ('open', lambda o: o == ['threshold', 'open'])]))
+    for k1, k2 in (((1, 1), (2, 1), (0, 2)) if tier == 'quick' else ((1, 1), (2, 1), (0, 2), (3, 3), (5, 5), (1, 6))):
+        inst.append(Instance(f'threshold half_open={k1}+{k2} spread over two connections', h_spread, (k1, k2), native=nat(h_spread),
+                             must_reach=[('armed', lambda o: o == ['spread', 'armed']), ('open', lambda o: o == ['spread', 'open'])]))
     for mode in ('retransmitted', 'nonce'):
         for k in ((2, 3) if tier == 'quick' else (2, 3, 5, 8, 12)):
             inst.append(Instance(f'threshold half_open={k} one source, one initiator SPI ({mode})', h_threshold, (k, 1, 'none', mode), native=nat(h_threshold),
